@@ -113,7 +113,7 @@ impl Property for C13 {
     }
     fn tape_len(&self, tier: Tier) -> usize { tier.pick(200, 400) }
     fn cases(&self, tier: Tier) -> u32 { tier.pick(200000, 4000000) }
-    fn required_labels(&self, _tier: Tier) -> Vec<&'static str> { vec!["compile", "decompile", "decrease", "crossing", "edge_label", "wrapped", "jump"] }
+    fn required_labels(&self, _tier: Tier) -> Vec<&'static str> { vec!["compile", "decompile", "decrease", "crossing", "edge_label", "wrapped", "jump", "difficulty-run"] }
 
     fn generate(&self, tape: &mut Tape, tier: Tier, _known: &Known) -> Value {
         let spec = default_lang();
@@ -148,6 +148,15 @@ impl Property for C13 {
                 times.push(t);
                 instrs.push(json!({"time": t, "opcode": TAG_OP, "tag": k as i32 + 1}));
             }
+            // per-difficulty variants: a run of the tagged instruction with ascending single-difficulty masks (which the
+            // decompiler may fold into one difficulty switch) whose stored times may change in the middle of the run
+            let ladder = tape.chance(1, 3);
+            if ladder {
+                let start = tape.below(n);
+                let len = (2 + tape.below(3)).min(n - start);
+                for j in 0..len { instrs[start + j]["difficulty"] = json!(1u32 << j); }
+                if len >= 4 && tape.chance(1, 2) { let keep = instrs[start]["time"].clone(); instrs[start + 1]["time"] = keep; }
+            }
             // optional jump inserted at a random position, targeting instruction j
             let mut jump = Value::Null;
             if tape.chance(1, 2) {
@@ -161,7 +170,9 @@ impl Property for C13 {
                 let jt = if at > 0 { times[at - 1] } else { 0 };
                 jump = json!({"at": at, "target": target, "t": tt, "time": if tape.bool() { jt } else if at < n { times[at] } else { jt }});
             }
-            json!({"mode": "decompile", "spec": spec.to_json(), "instrs": instrs, "jump": jump})
+            let mut spec = spec;
+            if ladder { spec.diff_flags = vec![(0, "E-".into()), (1, "N-".into()), (2, "H-".into()), (3, "L-".into()), (4, "4-".into()), (5, "5-".into()), (6, "6-".into()), (7, "7-".into())]; }
+            json!({"mode": "decompile", "spec": spec.to_json(), "instrs": instrs, "jump": if ladder { Value::Null } else { jump }, "ladder": ladder})
         }
     }
 
@@ -200,8 +211,10 @@ impl Property for C13 {
         ctx.label("decompile");
         // build the stream
         let mut instrs: Vec<MInstr> = case["instrs"].as_array().unwrap().iter().map(|i| MInstr {
-            time: i["time"].as_i64().unwrap() as i32, opcode: TAG_OP, mask: 0, blob: (i["tag"].as_i64().unwrap() as i32).to_le_bytes().to_vec(), difficulty: 0xFF }).collect();
+            time: i["time"].as_i64().unwrap() as i32, opcode: TAG_OP, mask: 0, blob: (i["tag"].as_i64().unwrap() as i32).to_le_bytes().to_vec(), difficulty: i["difficulty"].as_u64().unwrap_or(0xFF) as u8 }).collect();
         let stored: Vec<(i32, i32)> = tag_times(&instrs);
+        let ladder = case["ladder"] == true;
+        if ladder { ctx.label("difficulty-run"); ctx.nontrivial(); }
         let jump = &case["jump"];
         if !jump.is_null() {
             ctx.label("jump");
@@ -228,12 +241,14 @@ impl Property for C13 {
                 Ok(s) => s,
                 Err(()) => { let d = tx::diags(truth); if !tx::has_error_diag(&d) { return Err(Outcome::Fail(Failure::new("c13:raise-err-without-diagnostic", ""))); } return Err(Outcome::Discard("raise-error".into())); }
             };
-            let got = mtime_over_ast(&stmts).map_err(|e| Outcome::Fail(Failure::new("c13:decompile:unexpected-statement-shape", e)))?;
+            // (with per-difficulty runs the statements may be difficulty switches: only the recompilation below is compared)
+            let got = if ladder { stored.clone() } else { mtime_over_ast(&stmts).map_err(|e| Outcome::Fail(Failure::new("c13:decompile:unexpected-statement-shape", e)))? };
             if got != stored {
                 return Err(Outcome::Fail(Failure::new("c13:decompile:labels-do-not-reproduce-times", format!("stored (tag,time): {:?}\nlabels give: {:?}\n{}", stored, got, tx::stringify_block(&ast::Block(stmts.clone()))))));
             }
             tx::format_at(&ast::Block(stmts), 100).map_err(|e| Outcome::Fail(Failure::new("c13:format-error", e)))
         }) { Ok(t) => t, Err(o) => return o };
+        if std::env::var("TV_DUMP_TEXT").is_ok() { eprintln!("{}", text); }
         // 2. recompile the printed text in a fresh context
         tx::with_truth(|truth| {
             let compiled = match tx::compile_body(truth, &spec, &hooks, &text, tx::PipeOpts::default()) {
